@@ -177,6 +177,8 @@ class LinearSuite:
         self.ctx = ctx
         self.what = what
         self.coq_cases = []
+        self.hash_cases = []
+        self.max_hash_cases = 0
         self.nviol = 0
 
     def run_case(self, width, depth, alphabet, nslots, prog, pred=None, nontrivial=None):
@@ -214,6 +216,10 @@ class LinearSuite:
             self.nviol += 1
         he = [(s.hist, snapshot(s.sk, universe)) for s in slots]
         self.coq_cases.append(coq_case(width, depth, bm, he))
+        # a few short cases also go through the end-to-end model (bucket computed from Hashes.fasthash64)
+        if len(self.hash_cases) < self.max_hash_cases and len(prog) <= 10 and all(len(k) <= 16 for k in universe):
+            hs = "[" + "; ".join(f"({h}, {coq_expect(e)})" for h, e in he) + "]"
+            self.hash_cases.append(f"({width}%nat, {depth}%nat, {hs})")
         collide = any(len({bm[k][r] for k in universe}) < len(universe) for r in range(depth))
         merges = sum(1 for op in prog if op[0] == "merge")
         nt = (collide or merges > 0) if nontrivial is None else nontrivial(prog, bm, universe)
@@ -274,6 +280,15 @@ class LinearSuite:
             i = sorted(bad)[0]
             ctx.broken.append(f"correspondence cms-linear: model and implementation differ on {len(bad)} histories; "
                               f"first case: {self.coq_cases[i][:1500]}")
+        if self.hash_cases:
+            bad, err = ctx.coq_bad_cases("linhash", "Machine Harness CmsLinear CmsLinearHarness CmsLinearHash",
+                                         "check_lin_case_hash", self.hash_cases, shard=15)
+            if err:
+                ctx.broken.append("correspondence cms-linear (hash computed by the model) could not be evaluated: " + err)
+            if bad:
+                ctx.broken.append(f"correspondence cms-linear with the model's own fasthash64 columns differs on {len(bad)} histories; "
+                                  f"first: {self.hash_cases[sorted(bad)[0]][:800]}")
+            ctx.cov["cases_with_model_computed_hash"] = len(self.hash_cases)
         if self.coq_cases:
             ctx.sample(self.coq_cases[min(1, len(self.coq_cases) - 1)][:600])
             ctx.sample(self.coq_cases[-1][:900])
